@@ -138,7 +138,7 @@ for line in rt.printed("TVERDICT"):
 expect("CalibTrace: genuine calibration trace accepted, corrupted 'updated' rejected, missing event rejected", acc == {1: True, 2: False, 3: False}, str(acc))
 # Subchannel.tla: the invariants see a replaced operator that is not deleted; GraphWF's clauses see a corrupted observed graph
 for bugs, want in (("{}", False), ('{"keep_fc"}', True)):
-  rs = tlc.run("selftest_subchannel", "Subchannel", dict(MaxFC="1", Bugs=bugs), invariants=["InvWellFormed", "InvIO", "InvOthersKept", "InvOutputRewired", "InvCount"], workers=8)
+  rs = tlc.run("selftest_subchannel", "Subchannel", dict(MaxFC="1", Bugs=bugs, Acts='{"none", "relu", "relu6"}', Ranks="{2, 3}"), invariants=["InvWellFormed", "InvIO", "InvOthersKept", "InvOutputRewired", "InvCount", "InvOutcome"], workers=8)
   expect("Subchannel bugs %-12s InvWellFormed %s" % (bugs, "violated" if want else "holds"), ("InvWellFormed" in rs.violated) == want, str(rs.violated))
 good = {"id": 1, "nt": 4, "ops": [{"code": "A", "ins": [0, 1], "outs": [2]}, {"code": "B", "ins": [2, -1], "outs": [3]}], "gins": [0], "gouts": [3], "consts": [1], "names": ["x", "w", "h", "y"]}
 swapped = dict(good, id=2, ops=good["ops"][::-1])
